@@ -251,9 +251,31 @@ theorem lexStream_eq_rangedChars (text : List Nat) (read : Read) (hch : Chunking
         rw [hlist, hpos]
       · rw [lexChars_eq_rangedChars text read hch hw fuel _ hinv, hlist, hpos]
 
-end TsVerif.C13
+/-- Non-vacuity: `ab<<>>c€d`, ranges `[0,2) [6,6) [6,11)`, three-byte chunks: accepted list, no BOM, and the run. -/
+example : let doc : List Nat := [0x61, 0x62, 0x3c, 0x3c, 0x3e, 0x3e, 0x63, 0xe2, 0x82, 0xac, 0x64]
+    let rs : List TSRange := [⟨⟨0,0⟩,⟨0,2⟩,0,2⟩, ⟨⟨0,6⟩,⟨0,6⟩,6,6⟩, ⟨⟨0,6⟩,⟨0,11⟩,6,11⟩]
+    let read : Read := fun p => (doc.drop p).take 3
+    validFrom 0 rs = true ∧ (norm (decodeUtf8 doc)).1 ≠ BYTE_ORDER_MARK ∧
+    lexChars read 12 ((m0 rs).start read) = [(0, 0x61, 1), (1, 0x62, 1), (6, 0x63, 1), (7, 0x20ac, 3), (10, 0x64, 1)] ∧
+    rangedChars doc 12 rs 0 = [(0, 0x61, 1), (1, 0x62, 1), (6, 0x63, 1), (7, 0x20ac, 3), (10, 0x64, 1)] := by
+  refine ⟨by decide, by decide, by decide, by decide⟩
 
-namespace TsVerif.C13
-open TsGen TsVerif.Lex TsVerif.Utf TsVerif.C09
-#print axioms lexStream_eq_rangedChars
+/-- `port_stream_concat`: clause 1 of the property at the level of the FULL lexer port on BOTH sides.  For every
+document, every accepted non-empty range list with `RangesOnCharBoundaries` (`FitRun`), every chunking of the document
+and every chunking of the concatenation (both with `WholeChar`; neither text begins with a byte-order mark; the
+concatenation is shorter than `UINT32_MAX`): the sequence of (look-ahead, size) that the port produces over
+(document, ranges) — `set_included_ranges`, `set_input`, `start`, `advance`… — is the one it produces over the
+concatenation of the ranges as a stand-alone text with the default range. -/
+theorem port_stream_concat (doc : List Nat) (read : Read) (hch : ChunkingOf doc read) (hw : WholeChar doc read)
+    (r0 : TSRange) (rest : List TSRange) (hv : validFrom 0 (r0 :: rest) = true)
+    (hbom : (norm (decodeUtf8 doc)).1 ≠ BYTE_ORDER_MARK) (fuel : Nat)
+    (hf : FitRun doc fuel (r0 :: rest) r0.start_byte)
+    (read2 : Read) (hch2 : ChunkingOf (concatL doc (r0 :: rest)) read2) (hw2 : WholeChar (concatL doc (r0 :: rest)) read2)
+    (hsmall : (concatL doc (r0 :: rest)).length < UMAX)
+    (hbom2 : (coreLook read2 0 ⟨0, []⟩).1 ≠ BYTE_ORDER_MARK) :
+    (lexChars read fuel ((m0 (r0 :: rest)).start read)).map (fun x => (x.2.1, x.2.2)) =
+      (lexStream read2 fuel).map (fun x => (x.2.1, x.2.2)) := by
+  rw [lexStream_eq_rangedChars doc read hch hw r0 rest hv hbom fuel, stream_concat_text doc r0 rest fuel hv hf,
+    lexStream_eq_coreChars _ read2 hch2 hsmall hbom2, chars_chunk_indep _ read2 hch2 hw2 fuel 0 _ (Or.inl rfl)]
+
 end TsVerif.C13
